@@ -13,7 +13,7 @@ from worlds import batch
 
 PROPERTY = 'C12'
 LEVEL = 'exploration'
-RUNS = {'quick': 2500, 'thorough': 60000}
+RUNS = {'quick': 3600, 'thorough': 60000}
 RULE = ('scenario = converter (RP66V1 / LIS / BIT), directory tree of 2..10 generated files (healthy native, damaged native with explicit '
         'stored-byte faults, other formats, LAS/DAT/foreign), conversion configuration (slice/sample, channel subset, reduction, width, '
         'format), and a list of runs: sequential, 1..3 SimPool runs (jobs 1..16, explicit schedule choice list or policy, clock skews), '
@@ -37,7 +37,7 @@ ASSUMPTIONS = [
     'inside buffered write() calls is not explored',
     'step budget per file 6e6 + 4000*len(file) monitored events (PY_START + JUMP)',
 ]
-PROBES = ['hidden_or_glob_name', 'damaged_file_fault_fired', 'exception_in_file_typing', 'exception_in_converter', 'two_inputs_one_output', 'worker_ge3_tasks',
+PROBES = ['hidden_or_glob_name', 'damaged_file_fault_fired', 'exception_in_converter', 'failed_after_output_began', 'two_inputs_one_output', 'worker_ge3_tasks',
           'bad_file_first', 'channel_subset_overlap', 'jobs_gt_files', 'jobs_eq_1', 'foreign_file', 'other_format_file', 'subdir', 'ignored_result',
           'schedule_explicit', 'clock_skew', 'healthy_converted']
 
@@ -83,8 +83,11 @@ def gen_files(rng, converter, names, tier):
     used = set()
     others = [w for w in ('bit', 'las', 'dat', 'dlis_phys', 'lis_phys') if w != native]
     for _ in range(n):
-        kind = rng.wpick([(5, 'native'), (3, 'damaged'), (1, 'other'), (1, 'foreign')])
-        world = native if kind in ('native', 'damaged') else (rng.pick(others) if kind == 'other' else 'foreign')
+        kind = rng.wpick([(5, 'native'), (3, 'damaged'), (1, 'other'), (1, 'foreign'), (2, 'sibling')])
+        earlier = [f for f in files if f['gen']['world'] == native and 'variant' not in f['gen']]
+        if kind == 'sibling' and not earlier:
+            kind = 'native'
+        world = native if kind in ('native', 'damaged', 'sibling') else (rng.pick(others) if kind == 'other' else 'foreign')
         for _try in range(20):
             stem = rng.pick(STEMS)
             ext = rng.pick(batch.EXT[native]) if rng.chance(0.7) else rng.pick(batch.EXT.get(world, ['']))
@@ -105,11 +108,20 @@ def gen_files(rng, converter, names, tier):
             from worlds import foreign
             gen['kind'] = rng.pick(foreign.KINDS)
             gen['size'] = rng.randrange(0, 3000)
+        if kind == 'sibling':
+            # the same log delivered again (other name, same identity and structure) with corrected values, or simply a copy
+            gen = dict(rng.pick(earlier)['gen'])
+            if rng.chance(0.8):
+                gen['variant'] = rng.randrange(1, 1 << 16)
         spec = {'path': path, 'gen': gen}
         if kind == 'damaged':
             by, fields, _ = batch.file_content(gen)
             nf = rng.wpick([(6, 1), (2, 2), (1, 3)])
-            spec['faults'] = [damage.gen_fault(rng, len(by), fields) for _ in range(nf)]
+            if rng.chance(0.35) and any(f[2].startswith('val') for f in fields):
+                # structure intact, one stored metadata value wrong: the file is accepted, indexed and read, and fails late
+                spec['faults'] = [damage.gen_fault(rng, len(by), fields, kinds=['value_damage'])]
+            else:
+                spec['faults'] = [damage.gen_fault(rng, len(by), fields) for _ in range(nf)]
         files.append(spec)
     dirs = {f['path'].split('/')[0] for f in files if '/' in f['path']}
     files = [f for f in files if f['path'] not in dirs]
@@ -255,6 +267,9 @@ def _execute(scenario, res, br):
                 continue
             if rr['exception']:
                 res.probe('exception_in_converter')
+                if alone[rel]['tree']:
+                    # the conversion failed after it had begun to write output: the failures that can leave something behind
+                    res.probe('failed_after_output_began')
             if rr['ignored']:
                 res.probe('ignored_result')
             if rr['las_count'] and not rr['exception'] and not meta[rel]['faulted']:
